@@ -38,10 +38,17 @@ def alphabet(cls, with_set=True):
     return base + (["setF", "setP"] if with_set else [])
 
 
-def fresh(cfg):
+def fresh(cfg, pre=()):
+    """A new object; `pre` is a sequence of set-ops whose effect is folded into the CONSTRUCTOR arguments
+    (not replayed as assignments: an object that caches something at construction must not hide a stale
+    cache from the reference)."""
     cls, table, p_f, p_i = cfg
     from bluebonnet.flow import IdealReservoir, SinglePhaseReservoir  # noqa: PLC0415
 
+    if sum(1 for o in pre if o == "setF") % 2:
+        table, p_i = ALT[table]
+    if sum(1 for o in pre if o == "setP") % 2:
+        p_f = 0.5 * p_f
     fl = tables.fluid(table, p_i)
     return (IdealReservoir if cls == "ideal" else SinglePhaseReservoir)(NX, p_f, p_i, fl)
 
@@ -82,8 +89,8 @@ def apply(obj, op, cfg):
     raise KeyError(op)
 
 
-def build(hist, cfg):
-    obj = fresh(cfg)
+def build(hist, cfg, pre=()):
+    obj = fresh(cfg, pre)
     obs = [apply(obj, op, cfg) for op in hist]
     return obj, obs
 
@@ -113,11 +120,12 @@ def check_transition(hist, op, cfg):
     live, obs_live = build(full, cfg)
     # the reference object executes only the latest simulate, the *recovery* calls made after it
     # (interpolator calls are pure reads and are dropped) and the call under observation
-    ref_hist = [o for o in full[:k] if o in SET_OPS]  # = constructing the fresh object with those attributes
-    ref_hist += [o for i, o in enumerate(full[k:]) if i == 0 or o != "interp"]
+    pre = [o for o in full[:k] if o in SET_OPS]  # folded into the fresh object's constructor arguments
+    ref_hist = [o for i, o in enumerate(full[k:]) if i == 0 or o != "interp"]
     if op == "interp" and len(full) - k > 1:
         ref_hist.append(op)
-    ref, obs_ref = build(ref_hist, cfg)
+    ref, obs_ref = build(ref_hist, cfg, pre)
+    ref_hist = [f"<constructed after {pre}>"] * bool(pre) + ref_hist
     out = []
     if not obs_equal(obs_live[-1], obs_ref[-1]):
         out.append(V("stale-state/returned-value",
@@ -128,8 +136,8 @@ def check_transition(hist, op, cfg):
     elif op in ("rf", "rf_density") and obs_live[-1][0] == "val":
         # a recovery value is a function of the latest simulation and the call's own arguments: earlier
         # recovery reads (with another density flag, say) must not leak into it
-        alone_hist = [o for o in full[:k] if o in SET_OPS] + [o for o in full[k:-1] if o in SIM_OPS or o in SET_OPS] + [op]
-        _, obs_alone = build(alone_hist, cfg)
+        alone_hist = [o for o in full[k:-1] if o in SIM_OPS or o in SET_OPS] + [op]
+        _, obs_alone = build(alone_hist, cfg, pre)
         if not obs_equal(obs_live[-1], obs_alone[-1]):
             out.append(V("stale-state/read-depends-on-earlier-read",
                          f"{op} after history {full} returns {_short(obs_live[-1], obs_alone[-1])}; the same call right "
